@@ -5,8 +5,8 @@
 (* set_remote_description (src/sdp.rs dtls_fingerprint, peer_connection.rs *)
 (* 1400-1425 / 1586-1598) and the certificate the peer presents.           *)
 (*                                                                         *)
-(* A description carries the attribute at session level and/or in its      *)
-(* media section, each in one of several presentations of the genuine      *)
+(* A description carries the attribute at session level and/or in each of  *)
+(* its two media sections, each in one of several presentations of the genuine      *)
 (* digest G or of a digest that is not the peer's. The contract: all       *)
 (* attributes must agree after normalisation (algorithm case-insensitive,  *)
 (* hex case-insensitive, colons optional), the algorithm must be sha-256,  *)
@@ -24,10 +24,11 @@ Alg(f) == IF f = "Gsha1" THEN "sha-1" ELSE "sha-256"
 Val(f) == CASE f \in {"G", "Glower", "Gnocolon", "GalgUpper", "Gsha1"} -> "G"
             [] f = "W" -> "W" [] f = "Near" -> "N" [] f = "Gtrunc" -> "T"
 
-VARIABLES session, media, done
-vars == <<session, media, done>>
+\* a description with two media sections (m=audio, m=application, bundled: one DTLS association)
+VARIABLES session, media, media2, done
+vars == <<session, media, media2, done>>
 
-Present == {s \in {session, media} : s # "none"}
+Present == {s \in {session, media, media2} : s # "none"}
 Agree == \A a, b \in Present : Alg(a) = Alg(b) /\ Val(a) = Val(b)
 
 Expected ==
@@ -37,12 +38,16 @@ Expected ==
   ELSE IF \A a \in Present : Val(a) = "G" THEN "Connected"
   ELSE "DtlsFailed"
 
-Init == session \in Slot /\ media \in Slot /\ done = FALSE
-Next == ~done /\ done' = TRUE /\ UNCHANGED <<session, media>>
+\* every placement of the common values, and every placement in which one attribute uses a rarer presentation
+Common == {"none", "G", "W", "Near"}
+Rare(x) == IF x \in Common THEN 0 ELSE 1
+Init == /\ session \in Slot /\ media \in Slot /\ media2 \in Slot /\ done = FALSE
+        /\ Rare(session) + Rare(media) + Rare(media2) <= 1
+Next == ~done /\ done' = TRUE /\ UNCHANGED <<session, media, media2>>
 Spec == Init /\ [][Next]_vars
 
 \* C02 at this level: Connected only with the genuine digest, agreed by every attribute
 Safe == (Expected = "Connected") => (Present # {} /\ \A a \in Present : Val(a) = "G" /\ Alg(a) = "sha-256")
 
-Emit == PrintT(<<"CASE", ToJson([session |-> session, media |-> media, expected |-> Expected])>>)
+Emit == PrintT(<<"CASE", ToJson([session |-> session, media |-> media, media2 |-> media2, expected |-> Expected])>>)
 =============================================================================
